@@ -249,9 +249,30 @@ def _fresh_mid(top_d, w):
     return mid2
 
 
-def _generator(nfail, a):
+def _generator(nfail, a, pre=0):
     env._reset_all()
     state = {"n": 0}
+    if pre == 1:
+        # history: a generator-to-generator circular dependency was reported earlier in this process
+        @h.paramclass
+        class Q:
+            a = h.Param(dtype=int, desc="a")
+
+        @h.generator
+        def Ping(p: Q) -> h.Module:
+            return Pong(a=p.a)
+
+        @h.generator
+        def Pong(p: Q) -> h.Module:
+            return Ping(a=p.a)
+
+        try:
+            Ping(a=a)
+            return _fail("circular generators returned")
+        except RecursionError:
+            return True  # (not this property's subject)
+        except Exception:
+            pass
 
     @h.paramclass
     class P:
@@ -273,6 +294,30 @@ def _generator(nfail, a):
         m.i = Flaky(a=p.a)(x=m.s)
         return m
 
+    if pre == 2:
+        # the outer generator's body catches the inner failure and calls the inner generator again: the same error again
+        @h.generator
+        def Catcher(p: P) -> h.Module:
+            errs = []
+            for _ in range(2):
+                try:
+                    return Flaky(a=p.a)
+                except Exception as e:
+                    errs.append(type(e).__name__ + ": " + str(e)[:40])
+            state["errs"] = errs
+            raise ValueError("generator body failed")
+
+        if nfail >= 2:
+            try:
+                Catcher(a=a)
+            except ValueError:
+                pass
+            except Exception as e:
+                return _fail("spurious error: " + _norm(e)[:200])
+            errs = state.get("errs")
+            if errs is not None and any("generator body failed" not in x for x in errs):
+                return _fail(f"a generator called again inside a body reported {errs}")
+            state["n"] = 0
     for k in range(nfail):
         try:
             Outer(a=a)
@@ -317,10 +362,10 @@ def planted_fault(fault, level, cont, w, via):
         return _planted(fault, level, cont, w, via)
 
 
-@harness("C08", args="nfail: int, a: int", pre=["1 <= nfail <= 3", "1 <= a <= 3"], tiers={"quick": {"timeout": 120}}, sample=(1, 2),
-         bounds="a generator (called from inside another generator) whose body raises on its first 1..3 calls and then succeeds",
+@harness("C08", args="nfail: int, a: int, pre: int", pre=["1 <= nfail <= 3", "1 <= a <= 3", "0 <= pre <= 2"], tiers={"quick": {"timeout": 120}}, sample=(1, 2, 0),
+         bounds="a generator (called from inside another generator) whose body raises on its first 1..3 calls and then succeeds; alone, after a generator-to-generator circular-dependency error earlier in the process, or called again from inside a body that caught its failure",
          generalises="selectors", outside="")
-def generator_raises(nfail, a):
-    nfail, a = env.pick(nfail, 1, 3), env.pick(a, 1, 3)
+def generator_raises(nfail, a, pre):
+    nfail, a, pre = env.pick(nfail, 1, 3), env.pick(a, 1, 3), env.pick(pre, 0, 2)
     with env.notrace():
-        return _generator(nfail, a)
+        return _generator(nfail, a, pre)
